@@ -58,6 +58,9 @@ type Config struct {
 	// a positive cost to enable.
 	Stall int
 	Scope   func(site string) bool
+	// NoScopeCache: Scope is asked at every use instead of once per site (a scope that depends on the
+	// state of the harness; it must be a function of the execution so far to keep replay deterministic).
+	NoScopeCache bool
 	// Horizon is the largest virtual time a timer may fire at.
 	Horizon  time.Duration
 	MaxSteps int
@@ -883,7 +886,7 @@ func (s *Sched) enumerate() ([]trans, bool) {
 }
 
 func (s *Sched) inScope(site string) bool {
-	if site == "" {
+	if site == "" || s.cfg.NoScopeCache {
 		return s.cfg.Scope(site)
 	}
 	k := unsafe.StringData(site)
